@@ -29,11 +29,21 @@ fn utf8_bytes(len: usize, rng: &mut Rng) -> Vec<u8> {
             v.extend_from_slice(c.encode_utf8(&mut buf).as_bytes());
         }
     }
+    // line ends as guest programs written for a serial terminal produce them: CR LF, LF CR, lone CR
+    if len >= 4 && v.len() + 2 <= len && rng.chance(1, 3) {
+        let at = rng.below(v.len().min(len).saturating_sub(1).max(1));
+        let at = (0..=at).rev().find(|&i| i >= v.len() || v[i] & 0xc0 != 0x80).unwrap_or(0); // not inside a multi-byte sequence
+        let ins: &[u8] = match rng.below(3) { 0 => b"\r\n", 1 => b"\n\r", _ => b"\r" };
+        for (j, b) in ins.iter().enumerate() {
+            v.insert((at + j).min(v.len()), *b);
+        }
+    }
     while v.len() < len {
-        v.push(match rng.below(6) {
+        v.push(match rng.below(7) {
             0 => 0,
             1 => 0x0a,
             2 => 0x5c,
+            3 => 0x0d,
             _ => 0x20 + rng.below(0x5f) as u8,
         });
     }
